@@ -112,14 +112,17 @@ func c12Request(body string, peer, mask int, h [4]int) (r *http.Request) {
 	return r
 }
 
-// c12FixDefault is the code level of /repo that the model has as a switch: "0" =
-// the unchanged tree (known finding "uint32 session horizon"), "1" = with
-// /verif/fixes/c12/session_expiry_serial_compare.patch.  It is sent with every
-// reset line; C12_FIX overrides it for a scratch tree.
-const c12FixDefault = "0"
+// c12FixDefault is the code level of /repo that the model has as a switch, a
+// number of two bits: bit 0 = /verif/fixes/c12/basic_auth_throttle.patch is in
+// (HTTP Basic credentials go through the login rate limiter), bit 1 =
+// /verif/fixes/c12/session_expiry_serial_compare.patch is in (known finding
+// "uint32 session horizon").  "0" = neither, "1" = Basic-auth repair only,
+// "2" = horizon repair only, "3" = both.  It is sent with every reset line;
+// C12_FIX overrides it for a scratch tree.
+const c12FixDefault = "1"
 
 func c12Fix() string {
-	if v := os.Getenv("C12_FIX"); v == "0" || v == "1" {
+	if v := os.Getenv("C12_FIX"); v == "0" || v == "1" || v == "2" || v == "3" {
 		return v
 	}
 
@@ -635,7 +638,7 @@ func c12Bubble(first c12Cmd, cmds chan c12Cmd, done chan struct{}) {
 		if now := time.Now(); now.Unix() != 946684800 || now.Nanosecond() != 0 {
 			panic(fmt.Sprintf("c12: unexpected bubble epoch %v", now))
 		}
-		first.res <- []string{"ok"}
+		first.res <- []string{"ok", c12Fix()}
 
 		for c := range cmds {
 			c.res <- func() (out []string) {
@@ -878,7 +881,7 @@ func c12Gen(r *rand.Rand, emit vutil.Emit) {
 							p = r.IntN(len(c12Peers))
 						}
 						emit("C12.basic", vutil.Itoa(p), vutil.Itoa(c12PeerKey(p)), vutil.Itoa(r.IntN(2)),
-							vutil.B(r.IntN(3) == 0), vutil.B(strings.Contains(extra, "basic")))
+							vutil.B(r.IntN(3) == 0), vutil.B(strings.Contains(extra, "basic") || c12Fix() == "1" || c12Fix() == "3"))
 					case k < 62:
 						emit("C12.req", vutil.Itoa(r.IntN(5)))
 					case k < 68:
